@@ -59,3 +59,20 @@ package dirhash
 //@     invariant forall k int :: 0 <= k && k <= @idx ==> files[k] == z.File[k].Name && has(zfiles, z.File[k].Name)
 //@     decreases len(z.File) - @idx
 //@   props C19
+
+//@ # DirFiles lists every non-directory below the cleaned dir under prefix joined with its path relative to that
+//@ # same cleaned dir: the root that is walked and the root that names are cut against are one variable
+//@ func DirFiles$1
+//@   requires info != nil || err != nil
+//@   # (assumed of filepath.Walk: what it visits is the root or lies below it, one separator and a name further)
+//@   requires err == nil && file != dir && dir != "." ==> len(file) >= len(dir) + 1
+//@   modifies files, []string
+//@   allocates
+//@   ensures site 1 [C19] dirs_not_listed: info.IsDir() && result == nil && len(files) == old(len(files))
+//@   ensures site 3 [C19] listed_relative_to_walked_root: !info.IsDir() && file != dir && result == nil && len(files) == old(len(files)) + 1 && files[len(files)-1] == filepath.ToSlash(JOIN2(prefix, if dir != "." then file[len(dir)+1:] else file))
+//@   props C19
+//@ func DirFiles
+//@   modifies *
+//@   allocates
+//@   call filepath.Walk requires [C19] walks_the_root_names_are_cut_against: arg_root == dir
+//@   props C19
